@@ -622,7 +622,18 @@ fn run_layout(rep: &mut Report, spec: &[Session], pattern: usize, small: bool, d
         if let Some(&g) = seqs.iter().find(|&&g| g != f) {
             ms.push(Mutn::Foreign(world.store.get_file_data(&wal_name(g)).unwrap_or_default()[..16].to_vec()));
         }
-        ms.iter().for_each(|mu| check_mutant(rep, &cx, f, mu));
+        for mu in &ms {
+            // a panic anywhere in recovery / truncation of a damaged image is itself a violation ("never panics")
+            if let Err(pn) = guard(|| check_mutant(rep, &cx, f, mu)) {
+                // leave the file intact again for the next mutant
+                cx.world.store.set_file_data(&wal_name(f), img.clone());
+                rep.violation(
+                    format!("C10|panic|while-reading-a-damaged-file|{}|{}", mu.kind(), panic_class(&pn)),
+                    pn,
+                    json!({"case": "mutant", "spec": spec_json(cx.spec), "file": f, "mut": mu.to_json(), "extra": "panic"}),
+                );
+            }
+        }
     }
     // truncation thresholds: every distinct stamp +-1, 0 and MAX; open / no writer; intact / torn file
     let stamps: BTreeSet<u64> = world.truth.values().flatten().map(|e| e.0).collect();
@@ -631,14 +642,56 @@ fn run_layout(rep: &mut Report, spec: &[Session], pattern: usize, small: bool, d
     let torn = seqs.choose(rng).map(|&f| (f, rng.gen_range(0..=world.store.get_file_data(&wal_name(f)).map_or(0, |d| d.len()))));
     for &t in &ts {
         for open in [true, false] {
-            trunc_case(rep, spec, t, open, None, class);
-            if small || rng.gen_ratio(1, 4) {
-                trunc_case(rep, spec, t, open, torn, class);
+            let torn_too = small || rng.gen_ratio(1, 4);
+            for tn in [None, torn].into_iter().take(if torn_too { 2 } else { 1 }) {
+                if let Err(pn) = guard(|| trunc_case(rep, spec, t, open, tn, class)) {
+                    rep.violation(
+                        format!("C10|panic|truncate_before|{}|{}", if tn.is_some() { "torn-file" } else { "intact-files" }, panic_class(&pn)),
+                        pn,
+                        json!({"case": "truncate", "spec": spec_json(spec), "T": t, "open": open, "torn": tn.map(|(a, b)| vec![a, b as u64])}),
+                    );
+                }
             }
         }
     }
     if rep.samples.len() < 4 {
         rep.sample(json!({"layout": spec_json(spec), "stamp_pattern": PATTERNS[pattern], "files": seqs.len(), "thresholds": ts.len(), "payload": if deltas {"bincode deltas"} else {"raw bytes"}}));
+    }
+}
+
+/// One very large entry between small ones (the server accepts values up to 512 MB): recovery must return every
+/// appended entry, and truncation must keep the closed file that holds a large entry stamped later than T.
+fn giant_case(rep: &mut Report, size: usize) {
+    let blob: Vec<u8> = (0..size).map(|i| (i as u32).wrapping_mul(2246822519).to_le_bytes()[2]).collect();
+    let e = |ts: u64, d: &[u8]| (ts, d.to_vec());
+    // file 1: small, GIANT (stamp 10), small; file 2 (after a fresh rotator): small entries with lower and higher stamps
+    let spec = vec![
+        Session { max: size + 4096, header_only: false, entries: vec![e(1, b"before"), (10, blob), e(3, b"after-1"), e(4, b"after-2")] },
+        Session { max: 1 << 20, header_only: false, entries: vec![e(5, b"next-file"), e(12, b"newest")] },
+    ];
+    let wit = json!({"case": "giant", "size": size});
+    rep.evaluations += 1;
+    rep.count("giant_entries");
+    rep.max("giant_entry_bytes", size as u64);
+    rep.distinct(&("giant", size));
+    let world = match build(&spec) {
+        Ok(w) => w,
+        Err(err) => return rep.violation("C10|append|error|giant-entry", err, wit),
+    };
+    let all: Vec<Vec<u8>> = world.truth.values().flatten().map(|x| item(x, true)).collect();
+    match guard(|| WalRotator::new(world.store.clone(), 1 << 20).and_then(|r| r.recover_all_entries()).map_err(|e| e.to_string())) {
+        Ok(Ok(v)) if v.iter().map(|x| item(&(x.timestamp, x.data.clone()), true)).collect::<Vec<_>>() == all => {}
+        other => return rep.violation("C10|recover_all_entries|undamaged-layout-not-recovered|giant-entry", format!("{:?} of {} entries", other.map(|r| r.map(|v| v.len())), all.len()), wit),
+    }
+    // truncate_before(5): file 1 holds the giant stamped 10 > 5 and must survive with all its entries
+    let out = guard(|| {
+        let mut r = WalRotator::new(world.store.clone(), 1 << 20).map_err(|e| e.to_string())?;
+        r.truncate_before(5).map_err(|e| e.to_string())?;
+        r.recover_all_entries().map_err(|e| e.to_string())
+    });
+    match out {
+        Ok(Ok(v)) if v.iter().any(|x| x.timestamp == 10 && x.data.len() >= size) && v.iter().any(|x| x.timestamp == 12) => {}
+        other => rep.violation("C10|truncate_before|newer-entry-lost|giant-entry", format!("after truncate_before(5): {:?}", other.map(|r| r.map(|v| v.iter().map(|x| x.timestamp).collect::<Vec<_>>()))), wit),
     }
 }
 
@@ -648,6 +701,7 @@ pub fn wal_leg(args: &Args) {
         let w = load_witness(p);
         let spec = spec_from(&w["spec"]);
         match w["case"].as_str().unwrap_or("") {
+            "giant" => giant_case(&mut rep, w["size"].as_u64().unwrap_or(1 << 20) as usize),
             "truncate" => {
                 let torn = w["torn"].as_array().map(|a| (a[0].as_u64().unwrap_or(0), a[1].as_u64().unwrap_or(0) as usize));
                 trunc_case(&mut rep, &spec, w["T"].as_u64().unwrap_or(0), w["open"].as_bool().unwrap_or(false), torn, (0, 0, 0, true));
@@ -672,6 +726,13 @@ pub fn wal_leg(args: &Args) {
         let (small, deltas) = (rng.gen(), rng.gen());
         let (spec, pattern) = gen_spec(&mut rng, small, deltas);
         run_layout(&mut rep, &spec, pattern, small, deltas, &mut rng, false);
+    }
+    // giants: 1 MiB + 1 and 17 MiB in the quick tier, 70 MiB and 130 MiB in addition in the thorough tier
+    let giants: &[usize] = if args.thorough() { &[(1 << 20) + 1, 17 << 20, 70 << 20, 130 << 20] } else { &[(1 << 20) + 1, 17 << 20] };
+    for (i, g) in giants.iter().enumerate() {
+        if i % args.shards == args.shard % giants.len().max(1) || args.shards == 1 {
+            giant_case(&mut rep, *g);
+        }
     }
     for need in ["mut:truncate", "mut:bitflip", "mut:zero-extend", "region:entry.stamp", "region:entry.payload", "region:file.magic", "outcome:proper-prefix", "trunc:eligible-deleted", "trunc:newer-kept", "trunc:active-all<=T(kept?)", "recover_entries_after:ok"] {
         if !rep.counters.contains_key(need) {
